@@ -27,28 +27,57 @@ def names(ks):
     return ["a%d" % i for i, k in enumerate(ks) if k]
 
 
-def pattern_text(ks):
-    return "[" + ", ".join(("a%d" % i) if k else "" for i, k in enumerate(ks)) + ("," if ks and not ks[-1] else "") + "]"
+def pattern_text(ks, rest=False):
+    items = [("a%d" % i) if k else "" for i, k in enumerate(ks)]
+    if rest:
+        return "[" + ", ".join(items + ["...r"]) + "]"
+    return "[" + ", ".join(items) + ("," if ks and not ks[-1] else "") + "]"
 
 
-def program(kind, ks, m):
+# distinct characters of one, two, three and four UTF-8 bytes: element i of a string source
+ALPHABET = "".join(chr([0x61, 0xE0, 0x3041, 0x1F600][i % 4] + i) for i in range(64))
+SOURCES = ("array", "string", "set", "mapkeys", "generator", "arguments")
+
+
+def program(kind, ks, m, rest=False):
+    """kind: decl / assign / param over the instrumented iterator (values, next() calls, return() calls),
+    or one of SOURCES as a declaration (values only)."""
     ns = names(ks)
+    pat = pattern_text(ks, rest)
     vals = ", ".join(str(10 + i) for i in range(m))
+    if kind in SOURCES:
+        conv = "v === undefined ? -1 : v"
+        if kind == "array":
+            head, src = "", "[%s]" % vals
+        elif kind == "string":
+            head, src = "const A = %s;\n" % json.dumps(ALPHABET, ensure_ascii=False), json.dumps(ALPHABET[:m], ensure_ascii=False)
+            conv = "v === undefined ? -1 : [...A].indexOf(v) + 10"
+        elif kind == "set":
+            head, src = "", "new Set([%s])" % vals
+        elif kind == "mapkeys":
+            head, src = "", "new Map([%s]).keys()" % ", ".join("[%d, 0]" % (10 + i) for i in range(m))
+        elif kind == "generator":
+            head, src = "function* g() { %s return 99; }\n" % " ".join("yield %d;" % (10 + i) for i in range(m)), "g()"
+        else:
+            head, src = "", "(function () { return arguments; })(%s)" % vals
+        show = "[%s].map(v => %s).join()" % (", ".join(ns), conv)
+        if rest:
+            show += " + 'r' + r.map(v => %s).join()" % conv
+        return head + "const %s = %s;\n%s" % (pat, src, show)
     head = ("let n = 0, c = 0; const vals = [%s];\n"
             "const it = {[Symbol.iterator]() { let i = 0; return {next() { n++; return i < vals.length ? {value: vals[i++], done: false} "
             ": {value: 99, done: true}; }, return() { c++; return {}; }}; }};\n" % vals)
-    show = "[%s].map(v => v === undefined ? -1 : v).join() + '/' + n + '/' + (c === 1 ? 'T' : c === 0 ? 'F' : 'c' + c)" % ", ".join(ns)
-    pat = pattern_text(ks)
+    show = "[%s].map(v => v === undefined ? -1 : v).join()" % ", ".join(ns)
+    if rest:
+        show += " + 'r' + r.join()"
+    show += " + '/' + n + '/' + (c === 1 ? 'T' : c === 0 ? 'F' : 'c' + c)"
     if kind == "decl":
         return head + "const %s = it;\n%s" % (pat, show)
     if kind == "assign":
-        return head + ("let %s;\n" % ", ".join(ns) if ns else "") + "%s = it;\n%s" % (pat, show)
+        decl = ns + (["r"] if rest else [])
+        return head + ("let %s;\n" % ", ".join(decl) if decl else "") + "%s = it;\n%s" % (pat, show)
     if kind == "param":
         return head + "let out;\n(function (%s) { out = %s; })(it);\nout" % (pat, show)
-    if kind == "generator":
-        # no counters: only the values; the generator's return value must not be bound
-        return ("function* g() { %s return 99; }\nconst %s = g();\n[%s].map(v => v === undefined ? -1 : v).join()"
-                % (" ".join("yield %d;" % (10 + i) for i in range(m)), pat, ", ".join(ns)))
     raise ValueError(kind)
 
 
@@ -64,10 +93,12 @@ R = {
     "bindd": re.compile(r"^DeclareVar \{ name: \d+, init: (\d+), mutable: \w+ \}$"),
     "binds": re.compile(r"^SetVar \{ name: \d+, src: (\d+) \}$"),
     "close": re.compile(r"^IteratorClose \{ iterator: (\d+) \}$"),
+    "rest": re.compile(r"^CreateRestArray \{ dst: (\d+), iterator: (\d+), start_index: (\d+) \}$"),
+    "emptyrest": re.compile(r"^CreateArray \{ dst: (\d+), start: (\d+), count: 0 \}$"),
 }
 
 
-def render_real(ops, start, count):
+def render_real(ops, start, count, npos=-1):
     """The real instructions from `start`, in the model's notation; registers must be used consistently."""
     regs = {}
 
@@ -102,7 +133,14 @@ def render_real(ops, start, count):
         elif k == "undef":
             reg("elem", g[0]); out.append("undef")
         elif k in ("bindd", "binds"):
-            reg("elem", g[0]); out.append("bind")
+            if regs.get("rest") == g[0]:
+                out.append("bindrest")
+            else:
+                reg("elem", g[0]); out.append("bind")
+        elif k == "rest":
+            reg("rest", g[0]); reg("iterator", g[1]); out.append("rest" if int(g[2]) == npos else "rest@%s" % g[2])
+        elif k == "emptyrest":
+            reg("rest", g[0]); out.append("emptyrest")
         elif k == "close":
             reg("iterator", g[0]); out.append("close")
     if len(set(regs.values())) != len(regs):
@@ -140,10 +178,15 @@ def cases(chk):
     for ks in shapes:
         ms = range(0, min(len(ks), maxm) + 3) if len(ks) <= maxlen else sorted({0, 1, len(ks) - 1, len(ks), len(ks) + 1, rng.below(len(ks) + 1)})
         for m in ms:
-            for kind in ("decl", "assign", "param", "generator"):
-                if kind == "generator" and not any(ks):
-                    continue
-                out.append((kind, ks, m))
+            for rest in (False, True):
+                for kind in ("decl", "assign", "param"):
+                    out.append((kind, ks, m, rest))
+                if any(ks) or rest:
+                    # the other iterables: each (pattern, length) with two of them, all of them over the small patterns
+                    srcs = SOURCES if len(ks) <= 2 else [SOURCES[(len(ks) + m + j) % len(SOURCES)] for j in (0, 3)]
+                    for kind in srcs:
+                        if m <= len(ALPHABET):
+                            out.append((kind, ks, m, rest))
     return out
 
 
@@ -151,22 +194,22 @@ def run(chk, th, stats):
     cs = cases(chk)
     if chk.replay:
         r = json.load(open(chk.replay))
-        cs = [(r["kind"], r["pattern"], r["iterator_values"])]
-    srcs = [program(k, ks, m) for k, ks, m in cs]
+        cs = [(r["kind"], r["pattern"], r["iterator_values"], r.get("rest", False))]
+    srcs = [program(k, ks, m, rest) for k, ks, m, rest in cs]
     progs = [("p%d" % i, "", s) for i, s in enumerate(srcs)]
     cres = common.run_programs(th, [p for p, c in zip(progs, cs) if c[0] in ("decl", "assign")], mode="compile", tag="c01pat-c", timeout=1200)
     rres = common.run_programs(th, [(a, "steps=2000000", s) for a, _, s in progs], tag="c01pat-r", timeout=1200)
     nres = node_values(srcs, "n")
     # position of the pattern's first instruction in the real chunk (behind GetIterator)
     starts = []
-    for i, (kind, ks, m) in enumerate(cs):
-        c = cres.get("p%d" % i, {})
-        ops = c.get("ops") or []
+    for i, c in enumerate(cs):
+        ops = cres.get("p%d" % i, {}).get("ops") or []
         g = [j for j, o in enumerate(ops) if o.startswith("GetIterator")]
         starts.append(g[-1] + 1 if g else 0)
     rows = []
-    for (kind, ks, m), p in zip(cs, starts):
-        rows.append("pattern_case [%s] %d [%s]%%Z" % (";".join("true" if k else "false" for k in ks), p, ";".join(str(10 + i) for i in range(m))))
+    for (kind, ks, m, rest), p in zip(cs, starts):
+        rows.append("%s [%s] %d [%s]%%Z" % ("pattern_rest_case" if rest else "pattern_case", ";".join("true" if k else "false" for k in ks), p,
+                                            ";".join(str(10 + i) for i in range(m))))
     model = []
     shard = 300
     jobs = []
@@ -184,17 +227,17 @@ def run(chk, th, stats):
     if len(model) != len(cs):
         chk.proof_breaks.append("Lang.ArrayPatternExec returned %d rows for %d cases" % (len(model), len(cs)))
         return
-    for i, ((kind, ks, m), row) in enumerate(zip(cs, model)):
+    for i, ((kind, ks, m, rest), row) in enumerate(zip(cs, model)):
         stats["pattern_cases"] = stats.get("pattern_cases", 0) + 1
+        stats["pattern_kind_" + kind] = stats.get("pattern_kind_" + kind, 0) + 1
         code, mach, spec = row.split("|")
-        rep = {"kind": kind, "pattern": ks, "iterator_values": m, "program": srcs[i]}
+        rep = {"kind": kind, "pattern": ks, "iterator_values": m, "rest": rest, "program": srcs[i]}
         if mach != spec:
-            chk.proof_breaks.append("model machine and specification disagree (theorem c01_array_pattern_code_has_the_ecmascript_meaning "
-                                    "would be false): %s vs %s on %s" % (mach, spec, pattern_text(ks)))
+            chk.proof_breaks.append("model machine and specification disagree (theorems c01_array_pattern_*_has_the_ecmascript_meaning "
+                                    "would be false): %s vs %s on %s" % (mach, spec, pattern_text(ks, rest)))
             continue
-        want = spec.split("/")[0] if kind == "generator" else spec
+        want = spec.split("/")[0] if kind in SOURCES else spec
         r = rres.get("p%d" % i, {})
-        iv = None
         if r.get("status") == "complete" and str(r.get("value", "")).startswith("str:"):
             iv = r["value"][4:]
         elif r.get("status") == "error":
@@ -205,7 +248,7 @@ def run(chk, th, stats):
         if nv != want:
             if iv == nv:
                 chk.proof_breaks.append("the specification side of Lang/ArrayPattern.v disagrees with the reference engine and the implementation "
-                                        "on %s over %d values: spec %s, node %s" % (pattern_text(ks), m, want, nv))
+                                        "on %s over %d values (%s): spec %s, node %s" % (pattern_text(ks, rest), m, kind, want, nv))
             elif len(chk.violations) < 6:
                 rep.update({"tsrun": iv, "specification": want, "node": nv, "what": "array pattern: implementation, specification and node all differ"})
                 chk.violation(rep)
@@ -214,19 +257,19 @@ def run(chk, th, stats):
             if len(chk.violations) < 6:
                 rep.update({"tsrun": iv, "specification": want, "node": nv,
                             "what": "an array pattern binds other values, calls next() another number of times or closes the iterator "
-                                    "otherwise than ECMAScript prescribes (format: values/next calls/closed)"})
+                                    "otherwise than ECMAScript prescribes (format: values [r rest values] / next calls / closed)"})
                 chk.violation(rep)
             continue
         if kind in ("decl", "assign"):
             c = cres.get("p%d" % i, {})
             want_code = code.split(";")
             try:
-                real = render_real(c.get("ops") or [], starts[i], len(want_code)) if c.get("status") == "ok" else ["status:%s" % c.get("status")]
+                real = render_real(c.get("ops") or [], starts[i], len(want_code), len(ks)) if c.get("status") == "ok" else ["status:%s" % c.get("status")]
             except ValueError as ex:
                 real = ["registers: %s" % ex]
             stats["pattern_instructions"] = stats.get("pattern_instructions", 0) + len(want_code)
             if real != want_code and len(chk.proof_breaks) < 4:
                 k = next((j for j in range(min(len(real), len(want_code))) if real[j] != want_code[j]), min(len(real), len(want_code)))
-                chk.proof_breaks.append("correspondence Lang.ArrayPattern.cpattern vs compile_array_pattern_* at instruction %d (%s vs model %s) on: %s"
-                                        % (k, real[k] if k < len(real) else "<end>", want_code[k] if k < len(want_code) else "<end>",
-                                           srcs[i].split("\n")[-2]))
+                chk.proof_breaks.append("correspondence Lang.ArrayPattern.cpattern%s vs compile_array_pattern_* at instruction %d (%s vs model %s) on: %s"
+                                        % ("_rest" if rest else "", k, real[k] if k < len(real) else "<end>",
+                                           want_code[k] if k < len(want_code) else "<end>", srcs[i].split("\n")[-2]))
